@@ -14,6 +14,7 @@ RULE = (
     "append(new). Oracle: list splice on cell lists cells(f)[:s] + cells(new) + cells(f)[e:]; f's cells and str(f) unchanged. "
     "Non-trivial: start or end on, one before or one after an interior run boundary."
     ' Receiver and new value also carry a history (derived from observed parents) and come in large sizes (up to 130 runs; start/end then range over run boundaries +-1 and the ends); plain-str new values may contain a bare ESC or U+009B.'
+    ' Receiver and inserted value also as FmtStr-subclass instances, the plain-str value as a str-subclass instance; splice/append spelt positionally, with keywords and mixed.'
 )
 ASSUMPTIONS = ["formatting equality is cell equality (bold=False == absent)"]
 SHARDS = {"quick": 4, "thorough": 16}
